@@ -313,6 +313,21 @@ pub enum SteerItem {
     /// word-boundary pattern repeated over `lines` consecutive lines: short runs (`pre`, the last one ending at
     /// `boundary - 1`) followed by a long uniform run of `post` modules starting exactly at `boundary`
     Boundary { vertical: bool, index: usize, lines: usize, boundary: usize, pre: Vec<usize>, post: usize, first: bool },
+    /// the whole symbol as one texture: kind 0..=7 the ISO mask pattern of that number, 8 uniform, 9 2x2 blocks in
+    /// chequerboard arrangement, 10 vertical stripes of width 5, 11 the 1011101 finder ratio repeated along every row;
+    /// `invert` flips it. A uniform texture steered under mask m makes candidate m a flat symbol (the extreme of penalty
+    /// rules 1, 2 and 4); texture k steered under m makes the candidate of another mask flat or finder-like everywhere.
+    Fill { kind: u8, invert: bool },
+}
+
+pub fn fill_value(kind: u8, r: usize, c: usize) -> bool {
+    match kind {
+        0..=7 => refmodel::geom::mask_cond(kind, r, c),
+        8 => true,
+        9 => (r / 2 + c / 2) % 2 == 0,
+        10 => (c / 5) % 2 == 0,
+        _ => [true, false, true, true, true, false, true, false, false, false, false][c % 11],
+    }
 }
 
 fn edge_index(n: usize) -> BoxedStrategy<usize> {
@@ -420,6 +435,13 @@ pub fn steer_constraints(n: usize, items: &[SteerItem]) -> Vec<(usize, usize, bo
                     }
                 }
             }
+            SteerItem::Fill { kind, invert } => {
+                for r in 0..n {
+                    for c in 0..n {
+                        put(false, r, c, fill_value(*kind, r, c) != *invert);
+                    }
+                }
+            }
             SteerItem::Rect { r0, c0, h, w, val } => {
                 for r in *r0..(*r0 + *h).min(n) {
                     for c in *c0..(*c0 + *w).min(n) {
@@ -487,7 +509,10 @@ pub fn steered_case(vmin: usize, vmax: usize, force_mask: bool) -> BoxedStrategy
             let level = Level::from_index(li);
             let n = size(v);
             let cap = capacity(v, level, Mode::Byte);
-            (vec(steer_item(n), 1..4), vec(any::<u8>(), cap.min(64)), any::<u8>()).prop_map(move |(items, seedbytes, stride)| {
+            (vec(steer_item(n), 1..4), vec(any::<u8>(), cap.min(64)), any::<u8>(), prop_oneof![5 => Just(None), 1 => (0u8..12, any::<bool>()).prop_map(Some)]).prop_map(move |(mut items, seedbytes, stride, fill)| {
+                if let Some((kind, invert)) = fill {
+                    items.insert(0, SteerItem::Fill { kind, invert });
+                }
                 let filler: Vec<u8> = (0..cap).map(|i| seedbytes[i % seedbytes.len().max(1)].wrapping_add((i / 64) as u8).wrapping_mul(stride | 1)).collect();
                 let cons = steer_constraints(n, &items);
                 let (payload, _applied) = steer_payload(v, level, mask, &cons, &filler);
@@ -498,6 +523,33 @@ pub fn steered_case(vmin: usize, vmax: usize, force_mask: bool) -> BoxedStrategy
             })
         })
         .boxed()
+}
+
+/// Enumerated extreme textures: for the listed versions x 4 levels x 12 textures x 2 polarities a Byte payload of full
+/// capacity steered (under a mask derived from the cell) so that the whole data area shows the texture; mask forced
+/// or automatic alternating. These are the symbols with the largest penalty terms a version can produce.
+pub fn extreme_textures(quick: bool) -> Vec<BuildCase> {
+    let versions: Vec<usize> = if quick { vec![1, 2, 6, 7, 10, 21, 27, 35, 39, 40] } else { (1..=40).collect() };
+    let mut out = Vec::new();
+    for &v in &versions {
+        for li in 0..4 {
+            let level = Level::from_index(li);
+            let n = size(v);
+            for kind in 0u8..12 {
+                for invert in [false, true] {
+                    if quick && v >= 21 && li >= 2 && (kind as usize + v + li) % 3 != 0 {
+                        continue;
+                    }
+                    let mask = ((v + li * 3 + kind as usize * 5 + invert as usize) % 8) as u8;
+                    let cons = steer_constraints(n, &[SteerItem::Fill { kind, invert }]);
+                    let (payload, _) = steer_payload(v, level, mask, &cons, &[]);
+                    let auto = (v + kind as usize + invert as usize) % 2 == 0;
+                    out.push(BuildCase::new(payload, Opts { mode: Some(Mode::Byte), level: Some(level), version: Some(v), mask: if auto { None } else { Some(mask) } }));
+                }
+            }
+        }
+    }
+    out
 }
 
 /// Automatic-mask builds in small and medium versions (1..=14, weighted to the small ones): exact penalty ties
